@@ -54,12 +54,12 @@ def accounting_space(tier, phase):
             blocks = (T.s_blocks(phase, fam, 2, panel3=4) + T.s_blocks(phase, oth, 2, drop_all_empty=True) +
                       T.d_blocks(phase, fam, (0, 1, 2, 3), 6, 6, skip_same=True) +
                       T.d_blocks(phase, oth, (1, 2, 3), 6, 6, skip_same=True, first_ref_nonempty=True) +
-                      T.e_blocks(phase, fam))
+                      T.e_blocks(phase, fam) + T.dup_blocks(phase, fam))
         else:
             blocks = (T.s_blocks(phase, fam, 2) + T.s_blocks(phase, oth, 2, drop_all_empty=True) +
                       T.d_blocks(phase, fam, (0, 1, 2), 6, 6, skip_same=True) +
                       T.d_blocks(phase, oth, (1, 2), 6, 6, skip_same=True, first_ref_nonempty=True) +
-                      T.e_blocks(phase, fam))
+                      T.e_blocks(phase, fam) + T.dup_blocks(phase, fam))
         blocks.sort(key=lambda b: len(b.comps))
         _SPACE[key] = T.LazySpace(blocks)
     return _SPACE[key]
